@@ -1,23 +1,32 @@
 from .common import *
 NAMES = ['ECB', 'CBC', 'CTR', 'CFB', 'OFB']
 
-def run(tier):
-    r = Run('C10', tier)
+def mode_obligations(r, tier, prefix=''):
+    """one inductive step of every factory product + inverse + factory range (C10; also part of C02's claim "standard NIST mode")"""
     u, uuf = U_aes(), U_aes_blkuf()
     T = 300 if tier == 'quick' else 1800
-    r.tv(u, 'tv_aes.c')
+    if not any(t.get('unit') == 'aes' for t in r.tv_results):
+        r.tv(u, 'tv_aes.c')
     steps = 1 if tier == 'quick' else 3
-    for t in range(5):
-        for enc in (1, 0):
-            r.add(Ob('step-%s-%s' % (NAMES[t], 'enc' if enc else 'dec'), 'h_c10.c', [uuf], defines=['H_STEP', 'TYPE=%d' % t, 'ENC=%d' % enc, 'NSTEPS=%d' % steps],
-                     unwind=600, timeout=T, replay_units=[u], note='arbitrary IV/register (incl. 0xFF..FF suffixes), arbitrary block, arbitrary key'))
-        r.add(Ob('inverse-%s' % NAMES[t], 'h_c10.c', [uuf], defines=['H_INVERSE', 'TYPE=%d' % t], unwind=600, timeout=T, replay_units=[u]))
-    r.add(Ob('factory-unknown-type', 'h_c10.c', [uuf], defines=['H_FACTORY_RANGE'], unwind=600, timeout=T, replay_units=[u]))
+    mode_obligations_(r, u, uuf, T, steps, prefix)
+    return steps
+
+def run(tier):
+    r = Run('C10', tier)
+    steps = mode_obligations(r, tier)
     r.bounds = ['no bound on stream length or IV: one inductive step from an arbitrary register value + frame condition; %d consecutive step(s) checked per query' % steps]
     r.outside = ['AES block function abstracted as an uninterpreted permutation pair (C09 proves the real one equals FIPS-197)']
     r.assumptions = ['E/D uninterpreted with D(E(x))=x and E(D(y))=y instantiated at every call', 'operator new does not fail']
     r.run_all()
     return r.finish()
+
+def mode_obligations_(r, u, uuf, T, steps, prefix):
+    for t in range(5):
+        for enc in (1, 0):
+            r.add(Ob(prefix + 'step-%s-%s' % (NAMES[t], 'enc' if enc else 'dec'), 'h_c10.c', [uuf], defines=['H_STEP', 'TYPE=%d' % t, 'ENC=%d' % enc, 'NSTEPS=%d' % steps],
+                     unwind=600, timeout=T, replay_units=[u], note='arbitrary IV/register (incl. 0xFF..FF suffixes), arbitrary block, arbitrary key'))
+        r.add(Ob(prefix + 'inverse-%s' % NAMES[t], 'h_c10.c', [uuf], defines=['H_INVERSE', 'TYPE=%d' % t], unwind=600, timeout=T, replay_units=[u]))
+    r.add(Ob(prefix + 'factory-unknown-type', 'h_c10.c', [uuf], defines=['H_FACTORY_RANGE'], unwind=600, timeout=T, replay_units=[u]))
 
 def replay(rp):
     return generic_replay(rp, {'aes': U_aes, 'aes_blkuf': U_aes})
